@@ -14,8 +14,8 @@ BOUNDS = {
     "thorough": {"value_code_points": "<= 4 over U+0000..U+07FF; <= 2 over all of Unicode incl. surrogates", "max_age": "any int with <= 6 digits"},
 }
 STUBS = ["datetime.now not reached (sync_expires=False); an explicit expires instant uses the contract model of datetime (harness/dtmodel.py), email.utils.format_datetime is interpreted", "urllib.parse.quote runs natively on the concrete path"]
-ASSUMPTIONS = ["key is the concrete token 'k'", "a space inside a quoted value is accepted raw (pinned by the suite's test_dump_cookie)"]
-OUTSIDE = ["IDNA domains", "expires derived from max_age and the clock (sync_expires)", "the test client jar beyond its request matching (storage, expiry)", "values longer than the bound"]
+ASSUMPTIONS = ["key is the concrete token 'k' (jar_record: nine tokens incl. every attribute name)", "a space inside a quoted value is accepted raw (pinned by the suite's test_dump_cookie)"]
+OUTSIDE = ["IDNA domains", "expires derived from max_age and the clock (sync_expires)", "the test client jar beyond the record it builds from a Set-Cookie header and its request matching (storage, expiry)", "values longer than the bound"]
 
 # RFC 6265 cookie-octet
 COOKIE_OCTET = [0x21, (0x23, 0x2B), (0x2D, 0x3A), (0x3C, 0x5B), (0x5D, 0x7E)]
@@ -186,6 +186,10 @@ def obligations(tier, seed):
         for np_, nr in ([(1, 1), (1, 3), (2, 2), (2, 3)] if quick else [(a, b) for a in range(0, 4) for b in range(0, 5)]):
             out.append({"name": f"jar_match[cookie_path={np_},request_path={nr},origin_only={oo}]", "body": "body_jar_match",
                         "params": {"np_": np_, "nr": nr, "origin_only": oo}, "opts": {"budget_s": 600, "ctx": {"max_cp": 0x7F}}})
+    for ki in range(len(JAR_KEYS)):
+        for n in (((1,) if ki < 5 else (0,)) if quick else (0, 1, 2)):
+            out.append({"name": f"jar_record[key={JAR_KEYS[ki]},n={n}]", "body": "body_jar_record", "params": {"key_i": ki, "n": n, "full": not quick and n < 2},
+                        "opts": {"budget_s": 1500, "ctx": {"max_cp": 0xFF}}, "witness": ki == 1 and n == 1})
     for month in ([2, 10] if quick else [1, 2, 7, 10, 12]):
         out.append({"name": f"attributes[expires,month={month}]", "body": "body_attributes", "params": {"n": 0, "samesite_i": 1, "path_i": 1, "expires_month": month},
                     "opts": {"budget_s": 1500, "ctx": {"bv_ints": True, "max_digits": 6}}})
@@ -214,6 +218,46 @@ def body_jar_match(I, X, np_=2, nr=3, origin_only=True):
     host_ok = host == "h.example" or (not origin_only and host == "sub.h.example")
     exp = bool(pand(path_ok, host_ok))
     return got == exp, {"got": got, "exp": exp}
+
+
+JAR_KEYS = ["k", "secure", "HttpOnly", "samesite", "path", "max-age", "domain", "expires", "partitioned"]
+
+
+JAR_PROFILES = [(None, None, "/", None), ("Strict", 0, "/a", "example.com"), ("lax", 3600, None, None), (None, 3600, "/a", None),
+                ("Strict", None, None, "example.com"), ("lax", 0, "/", "example.com")]
+
+
+def body_jar_record(I, X, key_i=0, n=1, full=False):
+    """through the test client's jar: the record Cookie._from_response_header builds from a
+    Set-Cookie header written by dump_cookie carries the value and exactly the requested
+    attributes -- also when the cookie is named like an attribute or its value looks like
+    one -- and the pair it sends back parses to the value"""
+    from werkzeug import http
+    from werkzeug.test import Cookie
+
+    key = JAR_KEYS[key_i]
+    value = X.str("value", n, minlen=n, maxcp=0xFF)
+    X.known("C13-raw-control-1a-1f", pnot(pall_in(value, [(0, 0x19), (0x20, 0x10FFFF)])))
+    secure, httponly = X.flag("secure"), X.flag("httponly")
+    if full:
+        samesite = X.choice("samesite", [None, "Strict", "lax"])
+        max_age = X.choice("max_age", [None, 0, 3600])
+        path = X.choice("path", ["/", "/a", None])
+        domain = X.choice("domain", [None, "example.com"])
+    else:
+        samesite, max_age, path, domain = X.choice("profile", JAR_PROFILES)
+    header = I.call(http.dump_cookie, (key, value), {"max_age": max_age, "path": path, "domain": domain, "secure": secure, "httponly": httponly, "samesite": samesite, "sync_expires": False})
+    ck = I.call(Cookie._from_response_header, ("localhost", "/app/index", header))
+    ok = pand(peq(ck.key, key), peq(ck.decoded_key, key), peq(ck.decoded_value, value),
+              ck.secure == secure, ck.http_only == httponly,
+              (ck.same_site is None) if samesite is None else (ck.same_site is not None and peq(ck.same_site, samesite.title())),
+              (ck.max_age is None) if max_age is None else (ck.max_age is not None and ck.max_age == max_age),
+              peq(ck.path, path if path is not None else "/app"), peq(ck.domain, domain or "localhost"), ck.origin_only == (domain is None),
+              ck.expires is None)
+    back = I.call(http.parse_cookie, (I.call(ck._to_request_header, ()),))
+    items = list(back.items(multi=True))
+    ok = pand(ok, len(items) == 1 and peq(items[0][0], key) and peq(items[0][1], value))
+    return ok, {"header": header, "record": [ck.key, ck.value, ck.decoded_value, ck.domain, ck.origin_only, ck.path, ck.max_age, ck.secure, ck.http_only, ck.same_site], "sent_back": items}
 
 
 def make_stubs():
